@@ -6,8 +6,8 @@ import kernels, tvlib
 import solverlib as sl
 import compos
 
-GEN_SOURCES = ["skglm/solvers/anderson_cd.py", "skglm/datafits/single_task.py", "skglm/penalties/separable.py"]
-EXTRA_TARGETS = ["Gen/KernCD.vo", "Gen/KernACD.vo", "Gen/DfSingle.vo", "Gen/PenSeparable.vo"]
+GEN_SOURCES = ["skglm/solvers/anderson_cd.py", "skglm/datafits/single_task.py", "skglm/penalties/separable.py", "skglm/solvers/group_bcd.py", "skglm/datafits/group.py"]
+EXTRA_TARGETS = ["Gen/KernCD.vo", "Gen/KernACD.vo", "Gen/DfSingle.vo", "Gen/PenSeparable.vo", "Gen/KernBCD.vo", "Gen/DfGroup.vo", "Gen/PenBlock.vo"]
 TRUSTED_BASE = [
     "Coq 8.16.1 kernel (coqc); vm_compute only in correspondence files",
     "axioms: Reals (sig_forall_dec, sig_not_dec), functional_extensionality_dep, Classical_Prop.classic",
@@ -29,8 +29,9 @@ def correspondence(tier, rng):
     kc = kernels.gen_cd_kernels(rng, 120 if tier == "quick" else 800)
     r = tvlib.run_cases(kc, ["Gen.ProxFuncs", "Gen.PenSeparable", "Gen.SparseOps", "Gen.DfSingle", "Gen.KernCD", "Gen.KernACD"], "C19", shard=25, jobs=16)
     nz = sum(1 for c in kc if "0.0, 0.0" in c[0])
-    return dict(cases=len(kc), bad=r["bad"][:10], errors=r["errors"], distribution=dict(kernel_cases=len(kc), with_zero_entries=nz),
+    base = dict(cases=len(kc), bad=r["bad"][:10], errors=r["errors"], distribution=dict(kernel_cases=len(kc), with_zero_entries=nz),
                 distinct_nontrivial=len({c[0] for c in kc}), samples=[dict(case=kc[0][0][:300])])
+    return kernels.add_bcd_kernel_corr(base, rng, 140 if tier == "quick" else 840, "C19k")
 
 
 def degenerate(rng, X, y, ykind):
